@@ -199,7 +199,7 @@ func (gluesigSuite) Name() string { return "indexsigglue" }
 var gluesigGoodSigns = []string{"good", "good", "good", "good-rsa", "two", "pax"}
 var gluesigBadSigns = []string{"forged", "forged", "unknown", "unsigned", "unsigned", "splice", "tampered", "corrupt", "keyb"}
 
-var gluesigKeyA = []isKeyCfg{{isKeyNames[0], 0}}
+var gluesigKeyA = []isKeyCfg{{isKeyNames[0], 0, 0}}
 
 func gluesigGenView(r *Rng, repo int) []string {
 	defs := gluesigUniverse[repo]
@@ -231,19 +231,19 @@ func gluesigGenView(r *Rng, repo int) []string {
 func gluesigGenKeys(r *Rng) []isKeyCfg {
 	switch x := r.Intn(100); {
 	case x < 55:
-		return []isKeyCfg{{isKeyNames[0], 0}}
+		return []isKeyCfg{{isKeyNames[0], 0, 0}}
 	case x < 75:
-		return []isKeyCfg{{isKeyNames[0], 0}, {isKeyNames[1], 1}}
+		return []isKeyCfg{{isKeyNames[0], 0, 0}, {isKeyNames[1], 1, 0}}
 	case x < 82:
-		return []isKeyCfg{{isKeyNames[1], 1}}
+		return []isKeyCfg{{isKeyNames[1], 1, 0}}
 	case x < 88:
-		return []isKeyCfg{{isKeyNames[0], 2}} // the trusted name over another key's material
+		return []isKeyCfg{{isKeyNames[0], 2, 0}} // the trusted name over another key's material
 	case x < 92:
 		return []isKeyCfg{}
 	case x < 96:
-		return []isKeyCfg{{isKeyNames[0], 0}, {isKeyNames[2], 2}}
+		return []isKeyCfg{{isKeyNames[0], 0, 0}, {isKeyNames[2], 2, 0}}
 	default:
-		return []isKeyCfg{{isKeyNames[0], -1}, {isKeyNames[1], 1}}
+		return []isKeyCfg{{isKeyNames[0], -1, 0}, {isKeyNames[1], 1, 0}}
 	}
 }
 
@@ -413,7 +413,7 @@ func (gluesigSuite) Gen(r *Rng, i int, tier string) any {
 			} else if r.Chance(30) {
 				op = "apk"
 			}
-			keys := Pick(r, [][]isKeyCfg{gluesigKeyA, {{isKeyNames[1], 1}}, {{isKeyNames[0], 0}, {isKeyNames[1], 1}}, {{isKeyNames[0], 2}}, {}})
+			keys := Pick(r, [][]isKeyCfg{gluesigKeyA, {{isKeyNames[1], 1, 0}}, {{isKeyNames[0], 0, 0}, {isKeyNames[1], 1, 0}}, {{isKeyNames[0], 2, 0}}, {}})
 			run := g.buildRun(op, archs, serve, repos, keys)
 			run.Ignore = (k == 0 && r.Chance(60)) || r.Chance(15)
 			if op == "apk" {
